@@ -1,7 +1,7 @@
 CONSTANTS
-  Clients <- C3
-  N = 3
-  Srv = 2
+  Clients <- C2
+  N = 2
+  Srv = 0
   Kind = "simple"
   Ports <- P2
   Served <- P1
@@ -11,18 +11,16 @@ CONSTANTS
   ChVary = FALSE
   HasRouter = TRUE
   HasDns = TRUE
-  Veto <- Veto3
-  LeaseTicks = 2
-  Strict = FALSE
+  Veto <- Veto2
+  LeaseTicks = 3
+  Strict = TRUE
   Both = TRUE
   PickMode = "any"
   JunkKinds <- J1
-  KeepHist = TRUE
+  KeepHist = FALSE
   D = 0
-INIT Init
-NEXT Next
-VIEW viewE
+SPECIFICATION LiveSpec
+PROPERTY LeaseEnds
+PROPERTY AddressReturns
 INVARIANT TypeOK
-PROPERTY OwnerOnly
-PROPERTY LastOKa
 CHECK_DEADLOCK FALSE
